@@ -145,7 +145,7 @@ def check(env, rep, tier):
                 sd, ss = bitprov.sym_of(d_b0), bitprov.sym_of(s_b0)
                 fs = bitprov.field_of(bits, ss) if bits else {}
                 # the type bits travel through the MessageType enum, so they arrive as per-path constants
-                type_ok = bits is not None and all(bits[i] in (0, 1) or bits[i] == ("b", ss, i) for i in (4, 5))
+                type_ok = bits is not None and all(bits[i] in (0, 1, None) or bits[i] == ("b", ss, i) for i in (4, 5))
                 if not bits or bitprov.field_of(bits, sd) != {0: 0, 1: 1, 2: 2, 3: 3} or fs.get(6) != 6 or fs.get(7) != 7 or not type_ok:
                     ok_bits = False
                 sv = I.read(s, src.place)
